@@ -64,7 +64,6 @@ Qed.
 Lemma h_build_self_keeps c i : has_id (hc_args c) i -> has_id (hc_args (h_build_self c)) i.
 Proof.
   intros H. unfold h_build_self. destruct (hc_built c); [exact H|]. cbn [hc_args].
-  match goal with |- has_id (hc_args (?c' <| hc_built := true |>)) i => change (has_id (hc_args c') i) end.
   cbn. apply build_hargs_has.
   match goal with |- has_id (hc_args (h_check_help_and_version ?c')) i => apply (check_keeps c') end.
   destruct (is_nil (hc_subs c)); exact H.
@@ -107,7 +106,8 @@ Theorem globals_in_level c a name lv :
   has_id (hc_args lv) (ha_id a).
 Proof.
   intros Hb Ha Hg H Hh. unfold h_build_subcommand in H.
-  destruct (required_usage (h_build_self c)); [|discriminate].
+  destruct (if negb (hc_negates_reqs (h_build_self c)) && negb (hc_args_conflicts (h_build_self c))
+            then required_usage (h_build_self c) else Some []) as [reqs|]; [|discriminate].
   destruct (find (fun s => beq (hc_name s) name) (hc_subs (h_build_self c))) as [sc|] eqn:Ef; [|discriminate].
   apply find_some in Ef. destruct Ef as [Hsc En]. apply beq_eq in En.
   inversion H; subst lv. apply h_build_self_keeps. cbn [hc_args].
